@@ -217,7 +217,7 @@ func HarnessC10RoundTrip() {
 	}
 	t := g.tree(depth)
 	var gb []string
-	gbChoices := 3
+	gbChoices := 5
 	if mode == 0 {
 		gbChoices = 2
 	}
@@ -226,6 +226,10 @@ func HarnessC10RoundTrip() {
 		gb = []string{"g"}
 	case 2:
 		gb = []string{"g", "h_1"}
+	case 3:
+		gb = []string{"g", "g"} // a column may be listed more than once
+	case 4:
+		gb = []string{"g", "h_1", "g"}
 	}
 	q := &proto.Query{Expr: t, GroupBy: gb}
 	s := QueryToString(q)
